@@ -183,8 +183,12 @@ class Node:
         attribute to a complex value, build a ``yaml.Node``
         representing it and use :meth:`set_attribute` with that.
         """
-        start_mark = Mark('generated node', 0, 0, 0, None, 0)
-        end_mark = Mark('generated node', 0, 0, 0, None, 0)
+        # keep the position of the node we replace, for error messages
+        start_mark = self.yaml_node.start_mark
+        end_mark = self.yaml_node.end_mark
+        if start_mark is None or end_mark is None:
+            start_mark = Mark('generated node', 0, 0, 0, None, 0)
+            end_mark = Mark('generated node', 0, 0, 0, None, 0)
         self.yaml_node = yaml.MappingNode('tag:yaml.org,2002:map', list(),
                                           start_mark, end_mark)
 
@@ -298,8 +302,13 @@ class Node:
             attribute: Name of the attribute whose value to change.
             value: The value to set.
         """
-        start_mark = Mark('generated node', 0, 0, 0, None, 0)
-        end_mark = Mark('generated node', 0, 0, 0, None, 0)
+        # nodes made here get the position of the mapping they are added to,
+        # so that an error about them points into the document
+        start_mark = self.yaml_node.start_mark
+        end_mark = self.yaml_node.end_mark
+        if start_mark is None or end_mark is None:
+            start_mark = Mark('generated node', 0, 0, 0, None, 0)
+            end_mark = Mark('generated node', 0, 0, 0, None, 0)
         if isinstance(value, str):
             value_node = yaml.ScalarNode(
                     'tag:yaml.org,2002:str', value,
